@@ -61,7 +61,7 @@ class Contract:
                on_raise=None, gen_post=None, setup=None, hints=None,
                locals_shapes=None, memo=False, reads=None, at_calls=None,
                binds=None, fn_qualname=None, const_args=None, impl=None,
-               returns=None, define_fresh=None):
+               returns=None, define_fresh=None, assumed=None):
     self.qualname = qualname
     self.params = params or {}            # name -> Shape (self excluded)
     self.result = result                  # Shape of the result (call side)
@@ -102,6 +102,8 @@ class Contract:
     self.const_args = const_args or {}
     # impl: trusted direct implementation of a call (library-like helper)
     self.impl = impl
+    # text: this contract is used at call sites but its body is NOT verified
+    self.assumed = assumed
     # returns: fn(s) -> the value the call returns (a spec-function term);
     # on the callee side it is an obligation `result == returns`
     self.returns = returns
